@@ -94,6 +94,9 @@ def case_strategy(draw: Any, carrier: str) -> Dict[str, Any]:
         # the client's messages and pings keep arriving)
         "credit": draw(st.sampled_from(["prompt", "prompt", "late"])) if carrier == "h2"
         else "prompt",
+        # the client's Close frame travels in the same write as its last messages and pings
+        # (they come first: every one of those pings is still owed a pong)
+        "close_with": draw(st.sampled_from([False, False, True])),
     }
 
 
@@ -164,6 +167,8 @@ async def scenario(env: Any, case: Dict[str, Any]) -> Any:
         for p in pings:
             stream += ping_frame(p.encode())
     late = case.get("credit") == "late" and ws.client is not None
+    if case.get("close_with"):
+        stream += close_frame(case["client_close"])
     await ws.send(bytes(stream), seg=case["seg"])
     await env.settle(50.0)
     await ws.pump()
@@ -177,9 +182,10 @@ async def scenario(env: Any, case: Dict[str, Any]) -> Any:
             await ws.pump()
             if not had and not ws.client.unacked:
                 break
-    await ws.send(close_frame(case["client_close"]))
-    await env.settle(50.0)
-    await ws.pump()
+    if not case.get("close_with"):
+        await ws.send(close_frame(case["client_close"]))
+        await env.settle(50.0)
+        await ws.pump()
     await ws.end()
     if pre is not None:
         await pre.send(b"".join(message_frames("text", PRELUDE_TEXT.encode(), [], mask_seed=78)))
@@ -297,7 +303,8 @@ def _judge(case: Dict[str, Any], obs: Any) -> Dict[str, Any]:
     data_events = [(e["kind"], e["data"]) for e in events if e["kind"] in ("text", "binary")]
     # sends made after the closing handshake began may legitimately be dropped: compare the
     # prefix that was sent before any close frame appeared on the wire
-    if over is None and case["app"] == "collect":
+    early_close = bool(case.get("close_with"))  # the closing handshake began with the stream
+    if over is None and case["app"] == "collect" and not early_close:
         if data_events != sent:
             raise Violation("app_message_mismatch", f"client received {_short(data_events)}; "
                             f"application sent {_short(sent)}", backend=be)
@@ -306,7 +313,7 @@ def _judge(case: Dict[str, Any], obs: Any) -> Dict[str, Any]:
         if data_events != sent[:n]:
             raise Violation("app_message_mismatch", f"client received {_short(data_events)}; "
                             f"application sent {_short(sent)}", backend=be)
-        if over is None and n != len(sent):
+        if over is None and not early_close and n != len(sent):
             raise Violation("app_message_lost", f"client received {n} of {len(sent)} messages",
                             backend=be)
     return {"over": over, "adjusted": val.get("adjusted", 0)}
